@@ -23,12 +23,13 @@ structure CanonTarget (c base : URL) : Prop where
   normal : normalizeURL c = c
   canonical : (Ref.new c).isCanonical = true
 
-/-- The inputs on which `rebase`'s string-prefix tests are sound:
-* the path of the root document is a string prefix of the target's path only if they are equal
-  (or the root document's path is `/`);
+/-- The inputs on which `rebase`'s tests are sound:
+* the path of the root document matches the target's path UP TO A PATH BOUNDARY (`matchesDoc`: equal, or
+  followed by `/`) only if they are equal (or the root document's path is `/`) — i.e. the root document is not
+  itself a "directory" above the target;
 * the target's path is `/` only if the root document's is. -/
 def NoPrefixTrap (c base : URL) : Prop :=
-  (hasPrefix c.path base.path = true → c.path = base.path ∨ base.path = "/") ∧
+  (matchesDoc c.path base.path = true → c.path = base.path ∨ base.path = "/") ∧
   (c.path = "/" → base.path = "/")
 
 /-- What `denormalizeRef` returns for a canonical target. -/
@@ -74,7 +75,11 @@ theorem denormalize_resolves {base c : URL} (hb : CanonBase base) (hc : CanonTar
   · -- the target is the root document itself: fragment-only reference
     have hnp : rebasePath P base.path = "" := by
       unfold rebasePath
-      have hp : hasPrefix P base.path = true := (hasPrefix_iff _ _).mpr ⟨[], by simp [heq]⟩
+      have hp0 : hasPrefix P base.path = true := (hasPrefix_iff _ _).mpr ⟨[], by simp [heq]⟩
+      have hp : matchesDoc P base.path = true := by
+        unfold matchesDoc
+        rw [hp0]
+        simp [heq]
       rw [if_pos hp, trimPrefix_of (rest := []) (by simp [heq])]
     rw [hnp]
     simp only [isAbs_empty, Bool.false_eq_true, if_false]
@@ -87,7 +92,7 @@ theorem denormalize_resolves {base c : URL} (hb : CanonBase base) (hc : CanonTar
   · -- otherwise the path is cut at the directory of the root document
     have hnp : rebasePath P base.path = trimPrefix P (rebaseDir base.path) := by
       unfold rebasePath
-      by_cases hp : hasPrefix P base.path = true
+      by_cases hp : matchesDoc P base.path = true
       · rcases hx.1 hp with h | h
         · exact absurd h heq
         · rw [if_pos hp, h]
@@ -160,17 +165,20 @@ example : CanonBase ⟨"file", "", "/r/root.json", "", ""⟩ ∧
 
 /-! ### Where it fails (all reproduced against the real `denormalizeRef` / `normalizeURI`) -/
 
-/-- D10: the root document's path is matched as a string prefix at a non-element boundary:
-`/r/root.jsonx` against the root `/r/root.json` is written `x#/definitions/a`, which resolves to `/r/x`. -/
-theorem prefix_trap_non_boundary :
+/-- D10 (repaired by 3973529): a document whose name merely EXTENDS the root document's name
+(`/r/root.jsonx`, `/r/root.json.d/s.json` beside `/r/root.json`) is no longer taken for the root document:
+it is written relative to the root's directory and resolves back. (Before the repair `rebase` matched the
+root's path as a plain string prefix and wrote `x#/definitions/a`, which resolves to `/r/x`.) -/
+theorem extended_name_is_another_document :
     let base : URL := ⟨"file", "", "/r/root.json", "", ""⟩
     let c : URL := ⟨"file", "", "/r/root.jsonx", "", "/definitions/a"⟩
-    CanonBase base ∧ CanonTarget c base ∧
-    denormalizeRef c base = ⟨"", "", "x", "", "/definitions/a"⟩ ∧
-    normalizeURI (denormalizeRef c base) base = ⟨"file", "", "/r/x", "", "/definitions/a"⟩ ∧
-    normalizeURI (denormalizeRef c base) base ≠ c := by
+    let d : URL := ⟨"file", "", "/r/root.json.d/s.json", "", "/definitions/a"⟩
+    CanonBase base ∧ CanonTarget c base ∧ NoPrefixTrap c base ∧ NoPrefixTrap d base ∧
+    denormalizeRef c base = ⟨"", "", "root.jsonx", "", "/definitions/a"⟩ ∧
+    normalizeURI (denormalizeRef c base) base = c ∧
+    normalizeURI (denormalizeRef d base) base = d := by
   refine ⟨⟨by decide, by decide, by decide, rfl, rfl⟩, ⟨rfl, rfl, by decide, by decide, rfl, by decide, by decide⟩,
-    by decide, by decide, by decide⟩
+    ⟨by decide, by decide⟩, ⟨by decide, by decide⟩, by decide, by decide, by decide⟩
 
 /-- The same test at an element boundary: a target *below* the root document's path
 (`http://h.com/api/v1.json` against the root `http://h.com/api`) is written `http://h.com/v1.json`. -/
